@@ -12,9 +12,11 @@ import (
 	"bufio"
 	"bytes"
 	"fmt"
+	"math/big"
 	"net"
 	"os"
 	"runtime"
+	"strconv"
 	"strings"
 	"testing"
 	"time"
@@ -175,12 +177,90 @@ func c08Pipeline(p *Proxy, data []byte, tcp bool, stamp bool, peerIP string, pee
 
 // ---- hostile field values ------------------------------------------------------
 
-var c08CL = []string{"99999999999999", "9999999999", "-1", "+5", "", "abc", "0x10", "1e3", "2147483648", " 5", "5 5", "18446744073709551616", "٣"}
+var c08CL = []string{"9223372036854775807", "9223372036854775806", "9223372036854775000", "4294967296", "4294967295", "2147483647", "99999999999999", "9999999999", "-1", "+5", "", "abc", "0x10", "1e3", "2147483648", " 5", "5 5", "18446744073709551616", "٣"}
 var c08ViaRaw = []string{"[", "[]", "[::", "SIP/2.0/TCP [", "SIP/2.0/UDP [:5060", "SIP/2.0/UDP", "SIP/2.0/UDP :", "SIP/2.0/UDP :5060", "SIP/2.0/UDP a:b:c", "SIP/2.0/UDP h:99999999999999999999", ":", ",", ",,,", ";", "SIP/2.0/UDP h;", "SIP/2.0/UDP h;=;=", "SIP/2.0/UDP h;branch", "SIP/2.0/TCP ];branch=z", "SIP/2.0/TCP [;received=[", "SIP/2.0/UDP h;received=;rport=-1", "SIP/2.0/UDP h;rport=99999999999", "///// h", "SIP/2.0/UDP\th"}
 var c08RouteRaw = []string{"<", ">", "<>", "<tel:+1555>", "<urn:service:sos>;lr", "<http://h/>, <sip:127.0.0.78;lr>", "<sip:[>", "<sip:>", "<sip:@>", "<sip::>", "<sip:h:port>", "sip:nobrackets@h", "<sip:127.0.0.78;transport=tls;lr>", "<sip:127.0.0.78;transport=;lr>", "<sip:127.0.0.78;lr>x", "<sip:127.0.0.78;lr>;", "<sip:127.0.0.78;lr>;;", ",", "<sip:a@127.0.0.78:0;lr>", "<sip:a@127.0.0.78:-1;lr>", "<sip:a@127.0.0.78:70000;transport=tcp;lr>", "\"<\" <sip:127.0.0.78>"}
 var c08NameAddrRaw = []string{"<", ">", "<>", ";tag=", ";tag=a", "\"unterminated <sip:a@b>;tag=1", "<sip:a@b", ">sip:a@b<", "sip:", "sip:@", "sips:", ":", "", "<sip:a@b>;", "<sip:a@b>;;tag=x", "<sip:a@[>;tag=1", "tel:;tag=x", "<sip:a@b>;tag", "<sip:a@b:99999999999999999999>;tag=1"}
 var c08CSeq = []string{"", "INVITE", "1", "99999999999999999999 INVITE", "-1 INVITE", "1 2 3", "x INVITE", "1  INVITE", "1 "}
 var c08Start = []string{"", " ", "INVITE", "INVITE sip:a", "INVITE  sip:a@b  SIP/2.0", "INVITE sip:a@b SIP/2.0 extra", "SIP/2.0", "SIP/2.0 200", "SIP/2.0 abc OK", "SIP/2.0 99999999999999999999 OK", "SIP/2.0 0 x", "SIP/2.0 -1 x", "SIP/ 200 OK", "\x00 sip:a@b SIP/2.0", "INVITE sip:[ SIP/2.0", "INVITE sip: SIP/2.0", "INVITE : SIP/2.0", "INVITE sip:a@b:99999999999 SIP/2.0", "INVITE sip:svc.test;;;; SIP/2.0", "INVITE sip:svc.test?? SIP/2.0", strings.Repeat("A ", 200)}
+
+
+// c08Numbers: decimal texts around every width boundary an integer decoder can
+// trip over (int8 ... uint64, float53), both signs, plus oddly written ones.
+func c08Numbers() []string {
+	seen := map[string]bool{}
+	var out []string
+	add := func(s string) {
+		if !seen[s] {
+			seen[s] = true
+			out = append(out, s)
+		}
+	}
+	for _, k := range []uint{7, 8, 15, 16, 24, 31, 32, 53, 62, 63, 64} {
+		b := new(big.Int).Lsh(big.NewInt(1), k)
+		for d := int64(-2); d <= 1; d++ {
+			v := new(big.Int).Add(b, big.NewInt(d))
+			add(v.String())
+			add("-" + v.String())
+		}
+	}
+	// the last few hundred below the top of int64 / int32 (sums with a header size wrap)
+	for _, d := range []int64{100, 300, 1000, 4096, 65536} {
+		add(new(big.Int).Sub(new(big.Int).Lsh(big.NewInt(1), 63), big.NewInt(d)).String())
+		add(new(big.Int).Sub(new(big.Int).Lsh(big.NewInt(1), 31), big.NewInt(d)).String())
+	}
+	for _, s := range []string{"0", "00", "-0", "+0", "+1", "1", "2", "3", "4", "5", "10", "65534", "65535", "65536", "65537", "70000", "99999", "999999999", "9999999999", "99999999999999", "99999999999999999999", "340282366920938463463374607431768211456", "0x10", "1e3", "1.5", " 1", "1 ", ""} {
+		add(s)
+	}
+	return out
+}
+
+// c08NumericCases: ordinary messages in which exactly one number the proxy
+// decodes (or may decode) is replaced by a boundary value.
+func c08NumericCases() []struct{ Field, Value, Wire string } {
+	req := "INVITE sip:u@svc.test{RURIPORT} SIP/2.0\r\nVia: SIP/2.0/{TR} 127.0.0.9{VIAPORT};branch=z9hG4bKnb{N};rport{RPORTQ}\r\n{ROUTE}Max-Forwards: {MAXF}\r\nFrom: <sip:a@b.example{FROMPORT}>;tag=1\r\nTo: <sip:c@d.example{TOPORT}>{TOTAG}\r\nCall-ID: nb{N}\r\nCSeq: {CSEQ} INVITE\r\nExpires: {EXPIRES}\r\nContent-Length: {CL}\r\n\r\nabc"
+	resp := "SIP/2.0 {STATUS} OK\r\nVia: SIP/2.0/UDP 127.0.0.77:5060;branch=z9hG4bKpx{N}\r\nVia: SIP/2.0/{TR} 127.0.0.9{VIAPORT};branch=z9hG4bKnb{N};received=127.0.0.9;rport{RPORTQ}\r\nFrom: <sip:a@b.example{FROMPORT}>;tag=1\r\nTo: <sip:c@d.example{TOPORT}>;tag=2\r\nCall-ID: nb{N}\r\nCSeq: {CSEQ} INVITE\r\nExpires: {EXPIRES}\r\nContent-Length: {CL}\r\n\r\nabc"
+	def := map[string]string{"RURIPORT": "", "VIAPORT": ":5060", "RPORTQ": "", "ROUTE": "", "MAXF": "70", "FROMPORT": "", "TOPORT": "", "TOTAG": "", "CSEQ": "1", "EXPIRES": "3600", "CL": "3", "STATUS": "200", "TR": "UDP"}
+	fields := []struct{ name, ph, pre string }{
+		{"Content-Length", "CL", ""}, {"CSeq", "CSEQ", ""}, {"Expires", "EXPIRES", ""}, {"Max-Forwards", "MAXF", ""}, {"status", "STATUS", ""},
+		{"Request-URI port", "RURIPORT", ":"}, {"Via port", "VIAPORT", ":"}, {"Via rport", "RPORTQ", "="}, {"From URI port", "FROMPORT", ":"}, {"To URI port", "TOPORT", ":"},
+		{"Route URI port", "ROUTE", ""},
+	}
+	var out []struct{ Field, Value, Wire string }
+	n := 0
+	for _, f := range fields {
+		for _, v := range c08Numbers() {
+			for _, tmpl := range []string{req, resp} {
+				if !strings.Contains(tmpl, "{"+f.ph+"}") {
+					continue
+				}
+				for _, totag := range []string{"", ";tag=2"} {
+					if tmpl == resp && totag == "" {
+						continue
+					}
+					n++
+					w := tmpl
+					for k, dv := range def {
+						val := dv
+						if k == f.ph {
+							val = f.pre + v
+							if f.ph == "ROUTE" {
+								val = "Route: <sip:127.0.0.78:" + v + ";lr>\r\n"
+							}
+						}
+						if k == "TOTAG" {
+							val = totag
+						}
+						w = strings.ReplaceAll(w, "{"+k+"}", val)
+					}
+					w = strings.ReplaceAll(w, "{N}", strconv.Itoa(n))
+					out = append(out, struct{ Field, Value, Wire string }{f.name, v, w})
+				}
+			}
+		}
+	}
+	return out
+}
 
 // c08Sanitize keeps every address the proxy could send to inside 127/8 or
 // unresolvable (lab engine: a TCP dial to a black-holed address would stall
@@ -409,9 +489,48 @@ func FuzzPipeline(f *testing.F) {
 }
 
 func TestC08(t *testing.T) {
-	V.Rule("unit: sequences of 1-6 inputs (a fresh proxy every 40 sequences) pushed through the synchronous pipeline decode -> learn -> stamp -> register -> consume Route -> pin -> route -> relay (UDP-like and TCP-like arrival, requests and responses): structurally valid generated messages with 1-3 hostile fields (absurd / negative / non-numeric Content-Length, bracket-only / empty / huge Via hosts, hostile Route / From / To / CSeq / start lines, missing mandatory or duplicated singleton headers, thousands of headers / Via entries / parameters, hostile tags, odd Expires), truncations and random byte strings; oracle: no panic, returns within 15 s, TotalAlloc growth per input <= 512*len + 1 MiB (decoding is allowed a large constant factor, not an allocation that ignores how many bytes arrived). lab: the same inputs plus random and oversized bytes against real UDP and TCP listeners; after every batch a sentinel request must still be relayed, a TCP connection that carried undecodable bytes must have been closed, new connections must be served. The native coverage-guided target FuzzPipeline runs in the thorough tier. non-trivial = input that decodes (reaches routing) and contains >= 1 hostile field; distinct by input bytes")
+	V.Rule("unit: sequences of 1-6 inputs (a fresh proxy every 40 sequences) pushed through the synchronous pipeline decode -> learn -> stamp -> register -> consume Route -> pin -> route -> relay (UDP-like and TCP-like arrival, requests and responses): structurally valid generated messages with 1-3 hostile fields (absurd / negative / non-numeric Content-Length, bracket-only / empty / huge Via hosts, hostile Route / From / To / CSeq / start lines, missing mandatory or duplicated singleton headers, every decoded number (Content-Length, CSeq, Expires, Max-Forwards, status, URI / Via / Route ports, rport) at every integer width boundary 2^k-2..2^k+1 for k in 7..64 in both signs - enumerated completely -, thousands of headers / Via entries / parameters, hostile tags, odd Expires), truncations and random byte strings; oracle: no panic, returns within 15 s, TotalAlloc growth per input <= 512*len + 1 MiB (decoding is allowed a large constant factor, not an allocation that ignores how many bytes arrived). lab: the same inputs plus random and oversized bytes against real UDP and TCP listeners; after every batch a sentinel request must still be relayed, a TCP connection that carried undecodable bytes must have been closed, new connections must be served. The native coverage-guided target FuzzPipeline runs in the thorough tier. non-trivial = input that decodes (reaches routing) and contains >= 1 hostile field; distinct by input bytes")
 	V.Assume("egress hygiene: when the product itself computes a non-UDP next hop outside 127/8 for an input, the harness does not let that input reach the relay step (counted as neutralised); UDP sends cannot block")
 	V.Require("bin: process alive and RSS bounded after hostile batch", "decoded with hostile field", "rejected by the decoder", "tcp-like arrival", "udp-like arrival", "response", "lab: sentinel relayed after hostile batch", "lab: garbage TCP connection closed")
+
+	// every number the proxy decodes, at every integer width boundary (complete enumeration)
+	t.Run("numeric-boundaries", func(t *testing.T) {
+		if V.replay && !strings.HasPrefix(V.only, "numeric:") {
+			return
+		}
+		p, _ := c08NewProxy()
+		uses := 0
+		for _, c := range c08NumericCases() {
+			for _, tcp := range []bool{false, true} {
+				only := fmt.Sprintf("numeric:%s=%s,tcp=%v,resp=%v,totag=%v", c.Field, c.Value, tcp, strings.HasPrefix(c.Wire, "SIP/"), strings.Contains(c.Wire, ";tag=2"))
+				if !V.OnlyMatch(only) {
+					continue
+				}
+				if uses++; uses%400 == 0 {
+					p, _ = c08NewProxy()
+				}
+				wire := c.Wire
+				if tcp {
+					wire = strings.Replace(wire, "SIP/2.0/UDP 127.0.0.9", "SIP/2.0/TCP 127.0.0.9", 1)
+				}
+				var st c08Stats
+				V.Eval()
+				V.Journal(t.Name(), map[string]any{"field": c.Field, "value": c.Value, "tcp": tcp, "wire": wire})
+				f := c08Pipeline(p, []byte(wire), tcp, true, "127.0.0.9", 5060, &st)
+				V.Class("numeric boundary: " + c.Field)
+				if st.parsed > 0 {
+					V.NonTrivial(wire)
+				}
+				if f != "" {
+					V.Violation(t, only, map[string]any{"field": c.Field, "value": c.Value, "tcp": tcp, "wire": wire}, "%s = %q (%s arrival): %s", c.Field, c.Value, map[bool]string{false: "UDP-like", true: "TCP-like"}[tcp], f)
+					p, _ = c08NewProxy()
+					if V.ViolationCount() >= 2 {
+						return
+					}
+				}
+			}
+		}
+	})
 
 	var shared *Proxy
 	sharedUses := 0
